@@ -84,6 +84,11 @@ func upLayouts(tier string, second bool) []upLayout {
 			for _, s := range op.Slots {
 				out = append(out, upLayout{Ops: []upOp{op}, Files: []upFile{{Name: "a.txt", Content: content, Paths: []string{s}}}, Desc: fmt.Sprintf("op%d 1 file at %s", oi, s)})
 			}
+			if content == "a" {
+				for _, name := range []string{"we\"ird.txt", "b\\(1).txt", "sp ace;semi=colon.txt", "ünï.bin"} {
+					out = append(out, upLayout{Ops: []upOp{op}, Files: []upFile{{Name: name, Content: content, Paths: []string{op.Slots[0]}}}, Desc: fmt.Sprintf("op%d file named %q", oi, name)})
+				}
+			}
 			// one file used at two slots
 			for i := 0; i < len(op.Slots); i++ {
 				for j := i + 1; j < len(op.Slots); j++ {
